@@ -126,6 +126,24 @@ def run_cfgs(tier, seed):
                               what=f"several reparameterisation / flow options, process with PYTHONHASHSEED={hs_}"),
                          dict(multi_i, name=f"ins_hash{hs_}{ref}", group="ins_hash",
                               what=f"three stopping criteria, process with PYTHONHASHSEED={hs_}")])
+    # plotting switched on (every plotting option the samplers offer), the second run of the pair writing into the
+    # directory the first one filled (resume=False); and wall-clock scheduled checkpoints that fire at different
+    # iterations in the two runs of a pair (the second run's likelihood returns the same values, a little later)
+    pl = {"plots": True, "seed": seed + 9}
+    children += [
+        [dict(pl, sampler="std", name="plots_std_ref", repeat=2, reuse_output=True, group="plots_std",
+              what="plot=True, proposal_plots=True: second run into the output directory the first run filled"),
+         dict(sampler="ins", seed=seed + 9, name="ckpt_ins_ref", repeat=2, group="ckpt_ins", max_iteration=5,
+              extra={"tolerance": -50.0}, checkpoint={"interval": 0.4, "sleep": [0, 0.25]},
+              what="checkpoint_interval=0.4 s: second run with a slower likelihood (checkpoints at other iterations)")],
+        [dict(sampler="std", seed=seed + 9, name="ckpt_std_ref", repeat=2, group="ckpt_std",
+              checkpoint={"interval": 0.002, "sleep": [0, 0.0004]},
+              what="checkpoint_interval=0.002 s: second run with a slower likelihood (checkpoints at other iterations)"),
+         dict(pl, sampler="std", name="plots_std_fresh", group="plots_std",
+              what="plot=True, proposal_plots=True: fresh directory in a different process"),
+         dict(pl, sampler="ins", name="plots_ins_ref", repeat=2, reuse_output=True, group="plots_ins",
+              what="plot=True with pool / training / level plots: second run into the directory the first run filled")],
+    ]
     covc = [[], [], [], []]
     for j, (tag, kw_, what) in enumerate(cov):
         covc[j % 4].append(dict({"sampler": "std", "seed": seed + 3}, name=f"cov_{tag}_ref", repeat=2, group=f"cov_{tag}",
@@ -236,6 +254,14 @@ def run(chk):
                     continue
                 chk.evaluations += 1
                 chk.count("runs:" + c["sampler"])
+                if c.get("reuse_output"):
+                    chk.count("runs into a directory that already holds output files" if rep.get("output_files_before")
+                              else "runs into an empty directory (first of a pair)")
+                if c.get("checkpoint") and k == 1:
+                    its0, its1 = r["reps"][0].get("checkpoint_iterations"), rep.get("checkpoint_iterations")
+                    chk.count("checkpoint pair: checkpoints fired at different iterations" if its0 != its1
+                              else "checkpoint pair: same checkpoint iterations (pair not discriminating this time)")
+                    chk.notes.append(f"{c['name']}: checkpoints written at iterations {its0} / {its1}")
                 added = [d_ for d_ in rep.get("settings_diff", []) if d_["kind"] == "added"]
                 lost = [d_ for d_ in rep.get("settings_diff", []) if d_["kind"] != "added"]
                 for d_ in added:
@@ -270,7 +296,8 @@ def run(chk):
             chk.nontriv((g, c["name"], k))
             chk.count("compared:" + what)
             if diff:
-                key_ = c.get("finding") or f"C14:{c['sampler']}:{c['name'].split('_', 1)[1]}"
+                key_ = c.get("finding") or ("C14:" + c["sampler"] + ":" + (c["name"][len(c["sampler"]) + 1:]
+                                                                      if c["name"].startswith(c["sampler"] + "_") else c["name"]))
                 if c.get("finding"):
                     confirmed.add(c["finding"])
                 chk.fail(key_, f"{c['sampler']} sampler, seed {c['seed']}: {what} changes {', '.join(diff)} "
